@@ -51,9 +51,19 @@ func (c *ServerCookie) Decode(b []byte) error {
 	pos := 0
 	algo, s2c, c2s := false, false, false
 	for pos < len(b) {
+		if len(b)-pos < 4 {
+			return errUnexpectedCookieData
+		}
+		n := len(b) - pos - 4
 		t := binary.BigEndian.Uint16(b[pos:])
 		len := binary.BigEndian.Uint16(b[pos+2:])
+		if int(len) > n {
+			return errUnexpectedCookieData
+		}
 		if t == cookieTypeAlgorithm {
+			if len < 2 {
+				return errUnexpectedCookieData
+			}
 			c.Algo = binary.BigEndian.Uint16(b[pos+4:])
 			algo = true
 		} else if t == cookieTypeKeyS2C {
@@ -103,9 +113,19 @@ func (c *EncryptedServerCookie) Decode(b []byte) error {
 	pos := 0
 	id, nonce, ciphertext := false, false, false
 	for pos < len(b) {
+		if len(b)-pos < 4 {
+			return errUnexpectedCookieData
+		}
+		n := len(b) - pos - 4
 		t := binary.BigEndian.Uint16(b[pos:])
 		len := binary.BigEndian.Uint16(b[pos+2:])
+		if int(len) > n {
+			return errUnexpectedCookieData
+		}
 		if t == cookieTypeKeyID {
+			if len < 2 {
+				return errUnexpectedCookieData
+			}
 			c.ID = binary.BigEndian.Uint16(b[pos+4:])
 			id = true
 		} else if t == cookieTypeNonce {
